@@ -719,6 +719,11 @@ def run_check(modname, tier, seed, only=None, mutations=None, write_evidence=Tru
             if per_cfg[i]["paths"] + sum(1 for v in running.values() if v[1] == i) >= opts["max_paths"]:
                 per_cfg[i]["budget_hit"] = True
                 continue
+            if per_cfg[i].get("sat_paths", 0) >= opts.get("stop_after_sat_paths", 6):
+                # this configuration already has counterexamples on several paths: the verdict cannot become a
+                # pass any more, further paths only cost time (never taken on a tree where the property holds)
+                per_cfg[i]["cut_after_violations"] = True
+                continue
             pid, fd = _fork_call(child_sym, mod, configs[i], sched, opts, findings_open)
             running[fd] = (pid, i, sched, time.time())
         if not running:
@@ -995,6 +1000,8 @@ def _absorb(r, i, sched, configs, per_cfg, stats, all_claims, entered, samples, 
         if status == "exception":
             e["error"] = r.get("error")
         all_claims.append((i, r.get("schedule", sched), e))
+    if any(e["verdict"] == "sat" and not e.get("known") for e in r["claims"]):
+        pcf["sat_paths"] = pcf.get("sat_paths", 0) + 1
     for smp in r.get("samples", []):
         if len(samples) < 2:
             samples.append(dict(cfg=configs[i], claim=smp["claim"], smt2=smp["smt2"][:6000]))
